@@ -566,6 +566,11 @@ func genValidish(t *rapid.T) Case {
 		c.Method, c.Path, c.Body = r[0], r[1], []byte(r[2])
 		if len(c.Body) > 0 {
 			c.Headers = append(c.Headers, [2]string{"Content-Type", "application/json"})
+			if rapid.IntRange(0, 3).Draw(t, "vhgz") == 0 {
+				// a well-formed compressed body on every kind of binding (unary, streaming, HttpBody)
+				c.Body = drive.Gzip(c.Body)
+				c.Headers = append(c.Headers, [2]string{"Content-Encoding", "gzip"})
+			}
 		}
 	case "ws":
 		c.Method = "GET"
